@@ -522,6 +522,9 @@ type RevAPI struct {
 	// the same notification through a proxy field without a context parameter
 	NotePingNC func(tok string) error `notify:"true" rpc_method:"R.NotePing"`
 	RSub       func(ctx context.Context, tok string) (<-chan int, error)
+	// retry-tagged reverse methods
+	IdentR func(ctx context.Context, tok string) (string, error) `retry:"true" rpc_method:"R.Ident"`
+	RHoldR func(ctx context.Context, tok string) (string, error) `retry:"true" rpc_method:"R.RHold"`
 }
 
 // Rev calls back k times into the client that issued this call.
@@ -553,6 +556,10 @@ func (s *Svc) Rev(ctx context.Context, tok string, k int, which int) (string, er
 			last, err = rc.RBoom(ctx, t, 0)
 		case 6: // detached context: only the library's own failure path can end this call
 			last, err = rc.RHold(context.Background(), t)
+		case 7: // retry-tagged, detached context
+			last, err = rc.IdentR(context.Background(), t)
+		case 8:
+			last, err = rc.RHoldR(context.Background(), t)
 		}
 		s.mu.Lock()
 		r.Note += fmt.Sprintf("[%s -> %q err=%v]", t, last, err)
